@@ -42,8 +42,27 @@ fn main() {
     let script: Value = std::fs::read_to_string(dir.join("script.json")).ok()
         .and_then(|s| serde_json::from_str(&s).ok()).unwrap_or(json!({}));
     let key = format!("{}|{}", command, target_s);
-    let ins = if !script[&key].is_null() { script[&key].clone() } else { script["*"].clone() };
+    let mut ins = if !script[&key].is_null() { script[&key].clone() } else { script["*"].clone() };
+    // "by_visit": [ins0, ins1, ...] - the k-th execution of this command for this target within one run follows ins_k
+    // (the same command may be listed twice in one invocation); visits are counted by the visit markers left so far
+    if let Some(list) = ins["by_visit"].as_array().cloned() {
+        let vdir = dir.join("visits").join(format!("{}-{}", run_no, hex(key.as_bytes())));
+        let _ = std::fs::create_dir_all(&vdir);
+        let k = std::fs::read_dir(&vdir).map(|d| d.count()).unwrap_or(0);
+        let _ = std::fs::write(vdir.join(&uniq), b"");
+        if !list.is_empty() { ins = list[k.min(list.len() - 1)].clone(); }
+    }
 
+    // "chmod": [[absolute path, mode], ...] - change the permission bits of other files first (e.g. of a command file that a later
+    // group or command of the same run is going to need)
+    if let Some(list) = ins["chmod"].as_array() {
+        use std::os::unix::fs::PermissionsExt;
+        for e in list {
+            if let (Some(p), Some(m)) = (e[0].as_str(), e[1].as_u64()) {
+                let _ = std::fs::set_permissions(p, std::fs::Permissions::from_mode(m as u32));
+            }
+        }
+    }
     let mut code = ins["exit"].as_i64().unwrap_or(0) as i32;
     if let Some(k) = ins["barrier"].as_u64() {
         let bdir = dir.join("barrier").join(&command).join(ins["barrier_id"].as_str().unwrap_or("g"));
